@@ -55,6 +55,21 @@ CHECKS["C10"] = dict(
     note="Key completeness: the read-back of every known preference name is the complete assignment. Thread independence rests on the inventory of statics re-derived on every run (a process-wide mutable static is reported as MODEL-DRIFT). Trusted: TLC, the fingerprinting of outputs with ids renamed.",
 )
 
+CHECKS["C12"] = dict(
+    category="model_checking",
+    technique="TLA+ model of the two typed preference maps and the set_preference dispatch (Prefs.tla) model-checked by TLC; class sequences and seeded sequences over every real preference name executed; every call judged by TLC from the complete read-back before/after (Trace_Prefs.tla)",
+    text="TLC checks on the model that an accepted preference reads back, unknown names and wrong kinds are rejected, an Err changes nothing and set_mathml never writes preferences - for all sequences of (name class, value class); the dispatch of the pinned commit is refuted. In the real library every set_preference over all 78 known names + unknown/mis-cased names x value classes (valid, invalid, wrong type, empty, differently cased) is recorded with the read-back of every name, the stored kind (hook) and speech/braille fingerprints, and judged with exactly the C12 clauses.",
+    design_ref="DESIGN.md section 5 C12",
+    note="String preferences accept any string by design (file fallback), so only clear-cut cases require Err. Trusted: get_preference read-back of every known name as the observable store; TLC.",
+)
+CHECKS["C14"] = dict(
+    category="model_checking",
+    technique="TLA+ model of the rule tables with environment actions Damage/Repair/SetRulesDir (RuleCache.tla) model-checked by TLC, each deviation of the pinned commit refuted; fault sequences (file x shape x warm/cold x recovery mode) executed on a private Rules copy with explicit mtimes; TLC validates Trace_Faults.tla and the recovery memo (Trace_Memo.tla)",
+    text="Design: TLC explores all interleavings of damage, repair, re-pointing, preference switches and getters and checks that answers after recovery are computed from fresh tables. Implementation: every rule file reachable from three configurations (harvested through the file-read hook) x 7 fault shapes x {cold, warm} x {CheckRuleFiles=All, re-point}: no call may panic, loader errors must name the file, no call may fail after repair, and every post-repair output must equal the pre-fault/reference output (quick: seeded sample; thorough: complete product).",
+    design_ref="DESIGN.md section 5 C14",
+    note="'Names the file' is asserted only for errors raised while the loader was reading the damaged file in that call. Truncation is at YAML item boundaries. Trusted: the file-read hook, explicit mtimes (no wall clock), TLC.",
+)
+
 NOT_YET = {}
 
 
